@@ -378,7 +378,7 @@ func (d *MarchingCanvas) AddFieldParallel2(field Field) {
 
 	workers := runtime.NumCPU()
 	workers = verifWorkers(workers)
-	numJobs := len(chunkSections)
+	numJobs := len(chunkSections) * len(field.Float1Functions)
 	jobs := make(chan *job, numJobs)
 	results := make(chan *job, numJobs)
 
